@@ -62,6 +62,11 @@ pub fn programs(tier: Tier) -> ProgramSet {
                     s.variants[i].to_string = Some("Tt".into());
                     true
                 }));
+                // a name with characters that need escaping in a literal: a backslash followed by `n`, and a double quote
+                devs.push(dev(format!("v{}.to_string=\"q\\\"b\\\\n\"", i), &[&format!("tos{}", i)], move |s| {
+                    s.variants[i].to_string = Some("q\"b\\n".into());
+                    true
+                }));
                 if i + 1 < n {
                     devs.push(dev(format!("v{},v{}.to_string=\"dup\"", i, i + 1), &[&format!("tos{}", i), &format!("tos{}", i + 1)], move |s| {
                         s.variants[i].to_string = Some("dup".into());
